@@ -1015,6 +1015,11 @@ func (t *traffic) sendTok() bool {
 	if t.out == nil || t.sendErr != nil {
 		return false
 	}
+	if t.out.Fixed && t.sent >= 6000 {
+		// an upload with a declared length (200 000 bytes) must not run out: the shell would
+		// end by itself.  16 bytes per token: stop well before, with under 256 KiB outstanding.
+		return true
+	}
 	t.sent++
 	if err := t.out.Send(tok(t.sent)); err != nil {
 		t.sendErr = fmt.Errorf("sending token %d: %w", t.sent, err)
